@@ -155,8 +155,9 @@ def standard_plan(ctx, visitor, depths_quick=(8, 7, 6, 5, 5), depths_thorough=(1
             for env in envs:
                 for r in ((1.5, 2.0, 3.5) if th else (2.0,)):
                     cfg = dict(N=N, r=r, box="B1" if N == 2 else "B0", env=env)
-                    h, b = (60, 2) if th else (30, 2)
-                    tasks += list(dev_tasks(cfg, h, b, visitor))
+                    # iterate the bound: more deviations on shorter horizons
+                    for h, b in (((200, 0), (80, 1), (40, 2), (14, 3)) if th else ((30, 2),)):
+                        tasks += list(dev_tasks(cfg, h, b, visitor))
         if deep_runs:
             for env, N in (("const", 1), ("stair", 1), ("sin", 1)) + ((("lin", 1), ("quad", 1), ("const", 2)) if th else ()):
                 cfg = dict(N=N, r=2.0, box="B0", env=env)
